@@ -149,7 +149,16 @@ private:
 
                 if( isdigit( ch ))
                 {
+                    io_error_if( k + 1 >= sizeof( _text_buffer ), "Number too long in PNM file" );
+
                     _text_buffer[ k++ ] = static_cast< char >( ch );
+
+                    // the samples of a plain PBM file are single digits that need no separator
+                    if( this->_info._type == pnm_image_type::mono_asc_t::value )
+                    {
+                        _text_buffer[ k ] = 0;
+                        break;
+                    }
                 }
                 else if( k )
                 {
@@ -189,6 +198,11 @@ private:
                 if( isdigit( ch ))
                 {
                     k++;
+
+                    if( this->_info._type == pnm_image_type::mono_asc_t::value )
+                    {
+                        break;
+                    }
                 }
                 else if( k )
                 {
